@@ -3,6 +3,7 @@ CONSTANTS
   Locked = TRUE
   Bodies <- BodiesH2
   Modes <- OnlyAnsi
+  ValueChoices <- DefaultValues
   Seconds <- NoSecond
   TickMs <- Ticks1
   MaxTicks = 3
